@@ -818,6 +818,10 @@ func (e *kvElection) StopWithContext(ctx context.Context, opts StopOptions) erro
 		}
 	}
 
+	// One deadline for the whole call: the wait for the background goroutines,
+	// the deletion of the key and the wait for OnDemote share the time-out.
+	deadline := time.Now().Add(timeout)
+
 	done := make(chan struct{})
 	go func() {
 		e.wg.Wait()
@@ -826,7 +830,7 @@ func (e *kvElection) StopWithContext(ctx context.Context, opts StopOptions) erro
 
 	select {
 	case <-done:
-	case <-time.After(timeout):
+	case <-time.After(time.Until(deadline)):
 		log := e.getLogger()
 		log.Warn("shutdown_timeout",
 			append(e.logWithContext(ctx),
@@ -863,32 +867,42 @@ func (e *kvElection) StopWithContext(ctx context.Context, opts StopOptions) erro
 	)
 
 	if opts.DeleteKey && wasLeader {
-		ownedRev, owned := e.ownsRecord(termToken)
-		if !owned {
-			// Preempted, expired or replaced since our last heartbeat: the record
-			// (if any) belongs to a successor and must not be deleted.
+		// The deletion reads and writes the store. It runs in its own goroutine so
+		// that a store that answers slowly cannot hold this call beyond its
+		// time-out; if the call gives up, the goroutine finishes on its own (it
+		// deletes nothing but this instance's own record, at the revision it read).
+		deleted := make(chan struct{})
+		go func() {
+			defer close(deleted)
+			e.deleteOwnRecord(ctx, termToken)
+		}()
+
+		select {
+		case <-deleted:
+		case <-time.After(time.Until(deadline)):
 			log := e.getLogger()
-			log.Warn("key_deletion_skipped",
+			log.Warn("shutdown_timeout",
 				append(e.logWithContext(ctx),
-					zap.String("key", e.key),
-					zap.String("reason", "record_not_owned"),
+					zap.Duration("timeout", timeout),
+					zap.String("phase", "key_deletion"),
 				)...,
 			)
-		} else if err := e.deleteRecordAt(ownedRev); err != nil {
+			if wasLeader && hasOnDemote {
+				e.notifyDemotedByFailedStop()
+			}
+			return fmt.Errorf("shutdown timeout exceeded: %v", timeout)
+		case <-ctx.Done():
 			log := e.getLogger()
-			log.Warn("key_deletion_failed",
+			log.Warn("shutdown_cancelled",
 				append(e.logWithContext(ctx),
-					zap.Error(err),
-					zap.String("key", e.key),
+					zap.Error(ctx.Err()),
+					zap.String("phase", "key_deletion"),
 				)...,
 			)
-		} else {
-			log := e.getLogger()
-			log.Info("key_deleted",
-				append(e.logWithContext(ctx),
-					zap.String("key", e.key),
-				)...,
-			)
+			if wasLeader && hasOnDemote {
+				e.notifyDemotedByFailedStop()
+			}
+			return ctx.Err()
 		}
 	}
 
@@ -916,7 +930,7 @@ func (e *kvElection) StopWithContext(ctx context.Context, opts StopOptions) erro
 
 				select {
 				case <-done:
-				case <-time.After(timeout):
+				case <-time.After(time.Until(deadline)):
 					log.Warn("ondemote_callback_timeout",
 						append(e.logWithContext(ctx),
 							zap.Duration("timeout", timeout),
@@ -934,6 +948,38 @@ func (e *kvElection) StopWithContext(ctx context.Context, opts StopOptions) erro
 	}
 
 	return nil
+}
+
+// deleteOwnRecord deletes the leadership record if it still belongs to this
+// instance's term with the given token (StopWithContext with DeleteKey).
+func (e *kvElection) deleteOwnRecord(ctx context.Context, termToken string) {
+	ownedRev, owned := e.ownsRecord(termToken)
+	if !owned {
+		// Preempted, expired or replaced since our last heartbeat: the record
+		// (if any) belongs to a successor and must not be deleted.
+		log := e.getLogger()
+		log.Warn("key_deletion_skipped",
+			append(e.logWithContext(ctx),
+				zap.String("key", e.key),
+				zap.String("reason", "record_not_owned"),
+			)...,
+		)
+	} else if err := e.deleteRecordAt(ownedRev); err != nil {
+		log := e.getLogger()
+		log.Warn("key_deletion_failed",
+			append(e.logWithContext(ctx),
+				zap.Error(err),
+				zap.String("key", e.key),
+			)...,
+		)
+	} else {
+		log := e.getLogger()
+		log.Info("key_deleted",
+			append(e.logWithContext(ctx),
+				zap.String("key", e.key),
+			)...,
+		)
+	}
 }
 
 // notifyDemotedByFailedStop runs the OnDemote callback when a StopWithContext
